@@ -23,7 +23,7 @@ def gen(rng, tier):
     for n in lens:
         for blocked in (False, True):
             cases.append({'lens': [n], 'blocked': blocked, 'api': 'class' if n % 2 else 'func', 'seed': rng.randrange(1 << 30)})
-    for _ in range(400 if tier == 'quick' else 4000):
+    for _ in range(400 if tier == 'quick' else 9000):
         k = rng.choice([1, 2, 3, 5, 10, 40])
         cap = 6000 if k <= 3 else 1300 if k <= 10 else 300
         ls = [rng.choice([1, 2, 4, 1004, 1008, 1012, 1016, rng.randrange(1, cap + 1)]) if cap >= 1016 else rng.randrange(1, cap + 1) for _ in range(k)]
